@@ -56,6 +56,12 @@ TAGBLOCKS: list[tuple[str, str, str]] = [
     ("comment-para", "<!-- qza qzb -->\nqaa qab qac qad\n<!-- /qza -->\n", "para"),
     ("nested-tags", "{% qza %}\n{% qzb %}\nqaa qab qac\n{% /qzb %}\n{% /qza %}\n", "para"),
     ("var-line", "qaa qab\n{{ qza }}\nqac qad\n", "para"),
+    ("jcomment-list", "{# qza #}\n- qaa qab qac\n- qad\n{# /qza #}\n", "list"),
+    ("jcomment-table", "{# qza #}\n| qaa | qab |\n|---|---|\n| qac | qad |\n{# /qza #}\n", "table"),
+    ("var-list", "{{ qza }}\n- qaa qab qac\n- qad\n{{ /qza }}\n", "list"),
+    ("comment-list", "<!-- qza -->\n1. qaa qab qac\n2. qad\n<!-- /qza -->\n", "list"),
+    ("tag-table", "{% qza %}\n| qaa | qab |\n|---|---|\n| qac | qad |\n{% /qza %}\n", "table"),
+    ("mixed-tags-list", "<!-- qza -->\n- qaa qab\n{% /qzb %}\n", "list"),
 ]
 
 
